@@ -77,6 +77,12 @@ def scenario(exe, shim, root, seed, stats):
                 except OSError: pass
         if state == 'lost':
             fx.wipe_disk(a, rng.choice(a.disks))
+        elif rng.chance(1, 2):
+            # some files lost while their neighbours on the same disk stay (and may have been edited since the sync)
+            for (d, rel) in s.existing_files():
+                if rng.chance(1, 4): os.unlink(a.path(d, rel))
+        if rng.chance(1, 2):
+            a.cmd('scrub', '-p', 'full')      # leaves bad marks for fix -e
     dec = fx.decode(a)
     zero_nsec = set()
     for f in dec.files:
@@ -86,9 +92,9 @@ def scenario(exe, shim, root, seed, stats):
     shutil.copytree(a.root, backup, symlinks=True)
     cmds = [('status', []), ('status', ['-G']), ('diff', []), ('list', []), ('dup', []), ('check', []), ('check', ['-a']), ('check', ['-d', a.disks[0]]),
             ('check', ['-f', 'base0/']), ('scrub', ['-p', 'full']), ('scrub', ['-p', '50', '-o', '0']), ('sync', ['--force-empty', '--force-zero']),
-            ('sync', ['--force-empty', '--force-zero', '-B', '2']), ('fix', []), ('fix', ['-d', a.disks[0]]), ('fix', ['-m']), ('fix', ['-f', 'base1/']),
+            ('sync', ['--force-empty', '--force-zero', '-B', '2']), ('fix', []), ('fix', ['-d', a.disks[0]]), ('fix', ['-m']), ('fix', ['-f', 'base1/']), ('fix', ['-e']), ('fix', ['-S', '0', '-B', str(1 + rng.below(6))]), ('fix', ['-S', str(rng.below(4)), '-B', str(1 + rng.below(4))]),
             ('pool', []), ('touch', []), ('devices', [])]
-    picks = [cmds[rng.below(len(cmds))] for _ in range(7)] + [('touch', []), ('fix', []), ('sync', ['--force-empty', '--force-zero'])]
+    picks = [cmds[rng.below(len(cmds))] for _ in range(7)] + [('touch', []), ('fix', []), ('sync', ['--force-empty', '--force-zero']), ('fix', ['-e']), ('fix', ['-S', '0', '-B', str(1 + rng.below(6))])]
     for cmd, args in picks:
         shutil.rmtree(a.root); shutil.copytree(backup, a.root, symlinks=True)
         lg = os.path.join(vlib.scratch(), 'mon_%d_%d.log' % (seed, stats['runs']))
